@@ -3,7 +3,8 @@
 
    Model/Format.v is the formatter of main/src/formatter.rs path by path (flags fixA / fixC = the repaired
    code of proposed_fixes/C14-F4a.diff / C14-F4c.diff; false = the code as found); Model/FormatSpec.v says
-   what has to be shown.  `w` is the display width of a character (unicode-width), arbitrary.
+   what has to be shown.  `w` is the display width of a STRING (unicode-width's `UnicodeWidthStr::width_cjk`), an arbitrary function: nothing is
+   assumed about it, in particular not that it is the sum of the widths of the characters (it is not, for emoji sequences).
    A string is `encode cs`; a valid span / position is one `Span::new` / `Position::new` accepts. *)
 From Coq Require Import List NArith.
 From PT Require Import Model.Base Model.Format Model.FormatSpec Proofs.FormatLinesProofs Proofs.FormatProofs.
@@ -11,7 +12,7 @@ From PT Require Import Model.Base Model.Format Model.FormatSpec Proofs.FormatLin
 (* ---- never panics ---------------------------------------------------------------------------- *)
 
 (* code as found: no panic (and no fuel exhaustion) for every valid span of every NON-EMPTY input *)
-Theorem C14_total_partial : forall (w : char -> nat) cs a b,
+Theorem C14_total_partial : forall (w : list char -> nat) cs a b,
   valid_str cs -> encode cs <> nil -> fmt_valid_span (encode cs) a b = true ->
   exists ps, display_span w false (encode cs) a b = ROk ps.
 Proof. exact total_span_as_found. Qed.
@@ -19,20 +20,20 @@ Print Assumptions C14_total_partial.
 
 (* F4a: the code as found panics on a Span of the empty input *)
 Theorem C14_refuted_empty :
-  exists (w : char -> nat) (s : list byte) (a b : nat),
+  exists (w : list char -> nat) (s : list byte) (a b : nat),
     fmt_valid_span s a b = true /\ display_span w false s a b = RPanic.
 Proof. exact display_span_empty_panics. Qed.
 Print Assumptions C14_refuted_empty.
 
 (* with the repair F4a: every valid span of every input *)
-Theorem C14_total_repaired : forall (w : char -> nat) cs a b,
+Theorem C14_total_repaired : forall (w : list char -> nat) cs a b,
   valid_str cs -> fmt_valid_span (encode cs) a b = true ->
   exists ps, display_span w true (encode cs) a b = ROk ps.
 Proof. exact total_span_repaired. Qed.
 Print Assumptions C14_total_repaired.
 
 (* positions: as found and repaired, every input, every valid offset including end of input *)
-Theorem C14_total_position : forall (w : char -> nat) fixC cs p,
+Theorem C14_total_position : forall (w : list char -> nat) fixC cs p,
   valid_str cs -> fmt_valid_pos (encode cs) p = true ->
   exists ps, display_position w fixC (encode cs) p = ROk ps.
 Proof. exact total_position. Qed.
@@ -42,7 +43,7 @@ Print Assumptions C14_total_position.
 
 (* what the code prints for EVERY valid span (as found and repaired): the specified rendering, with the
    rows running from the line holding the byte before `start` to the line holding the byte before `end` *)
-Theorem C14_rows_of_the_code : forall (w : char -> nat) fixA cs a b,
+Theorem C14_rows_of_the_code : forall (w : list char -> nat) fixA cs a b,
   valid_str cs -> encode cs <> nil -> fmt_valid_span (encode cs) a b = true ->
   display_span w fixA (encode cs) a b
   = ROk (spec_span_at w (encode cs) a b (impl_line (encode cs) a) (impl_line (encode cs) b)).
@@ -51,7 +52,7 @@ Print Assumptions C14_rows_of_the_code.
 
 (* rows, 1-based numbers, visualized texts, span parts and marker columns are the demanded ones for every
    valid span that does not start exactly at the start of a line other than the first *)
-Theorem C14_rows_partial : forall (w : char -> nat) fixA cs a b,
+Theorem C14_rows_partial : forall (w : list char -> nat) fixA cs a b,
   valid_str cs -> encode cs <> nil -> fmt_valid_span (encode cs) a b = true ->
   starts_at_line_start (encode cs) a = false ->
   display_span w fixA (encode cs) a b = ROk (spec_span w (encode cs) a b).
@@ -60,7 +61,7 @@ Print Assumptions C14_rows_partial.
 
 (* F4b: a span starting exactly at a line start (not the first line) is rendered from the line before *)
 Theorem C14_refuted_linestart :
-  exists (w : char -> nat) (s : list byte) (a b : nat),
+  exists (w : list char -> nat) (s : list byte) (a b : nat),
     fmt_valid_span s a b = true /\ starts_at_line_start s a = true /\
     display_span w false s a b <> ROk (spec_span w s a b).
 Proof. exact display_span_linestart_deviates. Qed.
@@ -75,7 +76,7 @@ Print Assumptions C14_linestart_off_by_one.
 
 (* positions: the demanded row and marker column for every offset inside the input (code as found), and
    also at end of input with the repair F4c *)
-Theorem C14_rows_position_partial : forall (w : char -> nat) fixC cs p,
+Theorem C14_rows_position_partial : forall (w : list char -> nat) fixC cs p,
   valid_str cs -> fmt_valid_pos (encode cs) p = true ->
   p < length (encode cs) \/ fixC = true ->
   display_position w fixC (encode cs) p = ROk (spec_pos w (encode cs) p).
@@ -83,14 +84,14 @@ Proof. exact rows_position_partial. Qed.
 Print Assumptions C14_rows_position_partial.
 
 (* F4c: the code as found prints nothing for a Position at end of input ... *)
-Theorem C14_position_eof_as_found : forall (w : char -> nat) cs,
+Theorem C14_position_eof_as_found : forall (w : list char -> nat) cs,
   valid_str cs -> display_position w false (encode cs) (length (encode cs)) = ROk nil.
 Proof. exact position_eof_as_found. Qed.
 Print Assumptions C14_position_eof_as_found.
 
 (* ... although the statement asks for the last line *)
 Theorem C14_refuted_pos_eof :
-  exists (w : char -> nat) (s : list byte) (p : nat),
+  exists (w : list char -> nat) (s : list byte) (p : nat),
     fmt_valid_pos s p = true /\ p = length s /\
     display_position w false s p = ROk nil /\ spec_pos w s p <> nil.
 Proof. exact display_position_eof_deviates. Qed.
